@@ -9,6 +9,7 @@ import (
 	"fmt"
 	"io"
 	"net/http"
+	"net/url"
 	"runtime"
 	"sort"
 	"strconv"
@@ -482,22 +483,28 @@ func NewWorld(t *testing.T, cfg Config, seed uint64, concurrent bool) *World {
 	w.KB = newKB(w)
 	w.IdP = newIdP(w)
 
-	w.AB = w.newSite(false)
+	w.restart()
 	if cfg.SecondSite {
-		w.AB2 = w.newSite(true)
 		w.Stats.Reach["cfg_second_site"]++
 	}
-	ab := w.AB
-	w.lockMod = &lock.Lock{Authboss: ab}
-	w.confirmMod = &confirm.Confirm{Authboss: ab}
-
-	w.Handler = w.buildHandler()
 
 	for i := 0; i < cfg.NBrowsers; i++ {
 		w.Browsers = append(w.Browsers, newBrowser(i))
 	}
 	w.provision()
 	return w
+}
+
+// restart (re)builds the server side: fresh authboss instances over the
+// surviving user stores.
+func (w *World) restart() {
+	w.AB = w.newSite(false)
+	if w.Cfg.SecondSite {
+		w.AB2 = w.newSite(true)
+	}
+	w.lockMod = &lock.Lock{Authboss: w.AB}
+	w.confirmMod = &confirm.Confirm{Authboss: w.AB}
+	w.Handler = w.buildHandler()
 }
 
 // newSite builds and initialises one authboss instance. The first is the
@@ -524,8 +531,10 @@ func (w *World) newSite(second bool) *authboss.Authboss {
 		ab.Config.Core.ErrorHandler = defaults.NewErrorHandler(logger)
 		ab.Config.Core.Mailer = defaults.NewLogMailer(io.Discard)
 		ab.Config.Core.Hasher = authboss.NewBCryptHasher(bcrypt.MinCost)
-		w.DB2 = newDB(w)
-		w.DB2.second = true
+		if w.DB2 == nil {
+			w.DB2 = newDB(w)
+			w.DB2.second = true
+		}
 		ab.Config.Storage.Server = w.DB2
 	} else {
 		logger := defaults.NewLogger(simLogger{w})
@@ -585,6 +594,11 @@ func (w *World) newSite(second bool) *authboss.Authboss {
 				Endpoint: oauth2.Endpoint{AuthURL: "https://idp.example/" + p + "/auth", TokenURL: "https://idp.example/" + p + "/token", AuthStyle: oauth2.AuthStyleInParams},
 			},
 			FindUserDetails: aboauth2.GoogleUserDetails,
+		}
+		if cfg.OAuth2ExtraParams {
+			pr := ab.Config.Modules.OAuth2Providers[p]
+			pr.AdditionalParams = url.Values{"access_type": {"offline"}, "prompt": {"consent"}}
+			ab.Config.Modules.OAuth2Providers[p] = pr
 		}
 	}
 
@@ -668,6 +682,7 @@ var sessionKeysOfInterest = []string{
 //
 //	/probe/open                      — no middleware; reports what a handler sees
 //	/probe/mw/<reqs>/<mode>/<mp>/... — authboss.MountedMiddleware2
+//	/probe/legacy/<reqs>/<redirect>/<mp>/... — authboss.Middleware / MountedMiddleware (boolean flags)
 //	/probe/lock  /probe/confirm      — Middleware2(RequireNone, 404) → lock/confirm middleware
 func (w *World) serveProbe(rw http.ResponseWriter, r *http.Request) {
 	ab := w.AB
@@ -703,6 +718,19 @@ func (w *World) serveProbe(rw http.ResponseWriter, r *http.Request) {
 		mode, _ := strconv.Atoi(parts[2])
 		mp := parts[3] == "1"
 		authboss.MountedMiddleware2(ab, mp, authboss.MWRequirements(reqs), authboss.MWRespondOnFailure(mode))(final).ServeHTTP(rw, r)
+	case "legacy":
+		if len(parts) < 4 {
+			http.NotFound(rw, r)
+			return
+		}
+		reqs, _ := strconv.Atoi(parts[1])
+		redirect := parts[2] == "1"
+		full, twofa := reqs&1 != 0, reqs&2 != 0
+		if parts[3] == "1" {
+			authboss.MountedMiddleware(ab, true, redirect, full, twofa)(final).ServeHTTP(rw, r)
+		} else {
+			authboss.Middleware(ab, redirect, full, twofa)(final).ServeHTTP(rw, r)
+		}
 	case "lock":
 		authboss.Middleware2(ab, authboss.RequireNone, authboss.RespondNotFound)(lock.Middleware(ab)(final)).ServeHTTP(rw, r)
 	case "confirm":
